@@ -74,6 +74,10 @@ def gen_cases(rng, tier):
     # Tor._default_socks_endpoint(): asked twice — the second answer is the first one, and Tor hears nothing more
     for (kind, lines) in STORES:
         yield {'api': 'tor', 'store': kind, 'lines': lines, 'req': None}
+        if kind == 'lines' and any(usable_for(l, None) for l in lines):
+            # ... and asked twice at once: the second request is made while the first one's GETCONF is still unanswered (each gets an
+            # endpoint a configured entry denotes; Tor's configuration is left alone)
+            yield {'api': 'tor', 'store': kind, 'lines': lines, 'req': None, 'concurrent': True}
     for n in range(0, 3):
         for outs in itertools.product(['ok', 'ce', 'oe'] + SE, repeat=n):
             yield {'api': 'fallback', 'outs': list(outs)}
@@ -120,9 +124,15 @@ def run_impl(c):
         tor = Tor(reactor, st.proto)
         n0 = len(st.commands('SETCONF'))
         out, eps = [], []
+        if c.get('concurrent'):
+            st.hold_prefixes.add('GETCONF')
         for _ in range(2):
             d = tor._default_socks_endpoint()
             d.addCallbacks(lambda ep: (out.append(ep_str(ep)), eps.append(ep)) and None, lambda f: out.append('fail:' + f.type.__name__) and None)
+        if c.get('concurrent'):
+            st.hold_prefixes.discard('GETCONF')
+            while st.release('GETCONF') is not None:
+                pass
         n_all = len(st.sent) if hasattr(st, 'sent') else None
         res = {'setconf': setconf_values(st)[n0:], 'endpoint': out[0] if out else 'pending', 'second': out[1] if len(out) > 1 else 'pending',
                'same_object': len(eps) == 2 and eps[0] is eps[1], 'getconf_answer': c['lines'] if c['store'] == 'lines' else None}
@@ -344,9 +354,10 @@ def run_cases(cases, drv, tier):
                 if model is not None and model.get('setconf') is not None:
                     corr_ok = im['setconf'] == [model['setconf']] and im['endpoint'].startswith('fail')
             if c['api'] == 'tor':
-                ok2 = (im['second'] == im['endpoint']) and (im['same_object'] or im['endpoint'].startswith('fail')) and len(im['setconf']) <= 1
+                # (two requests made at once are two look-ups: the same endpoint, not necessarily the same object)
+                ok2 = (im['second'] == im['endpoint']) and (im['same_object'] or im['endpoint'].startswith('fail') or bool(c.get('concurrent'))) and len(im['setconf']) <= 1
                 prop_ok = ok2 if prop_ok is None else (prop_ok and ok2)
-        tags = [c['api'] + ('-rejected' if c.get('reject') else ''), 'store=' + c.get('store', '-'), 'req=' + ('none' if c.get('req') is None else 'given')]
+        tags = [c['api'] + ('-rejected' if c.get('reject') else '') + ('-concurrent' if c.get('concurrent') else ''), 'store=' + c.get('store', '-'), 'req=' + ('none' if c.get('req') is None else 'given')]
         res.append(Result(c, im, model, spec, corr_ok=corr_ok, prop_ok=prop_ok, in_h=True,
                           nontrivial=bool(c.get('lines')) or any(o != 'ok' for o in c.get('outs', [])), tags=tags))
     return res
